@@ -49,13 +49,18 @@ pub enum DestState {
     NotApplicable,
 }
 
-#[derive(Clone, Debug, Serialize, Deserialize, PartialEq)]
+#[derive(Clone, Copy, Debug, Serialize, Deserialize, PartialEq)]
 pub enum Malform {
     None,
     /// garbage bytes spliced into module `m` (does not lex)
     Syntax { module: usize },
     /// a custom import that is not a Rust path (generation fails; rasn backend only)
     BadCustomImport,
+    /// one source path does not exist / is a directory / holds invalid UTF-8 (real file system
+    /// states, nothing injected): reading it fails, so the compilation fails
+    SourceMissing { module: usize },
+    SourceIsDir { module: usize },
+    SourceBadUtf8 { module: usize },
 }
 
 #[derive(Clone, Debug, Serialize, Deserialize, PartialEq)]
@@ -146,6 +151,31 @@ pub fn materialise(p: &Plan, root: &str) -> Materialised {
             }
         }
     }
+    // real file-system states of one source (applied after the files were written)
+    let pos_of = |module: usize| p.order.iter().position(|i| *i == module);
+    match p.malform {
+        Malform::SourceMissing { module } => {
+            if let Some(Src::Path(f)) = pos_of(module).and_then(|k| srcs.get(k)) {
+                let _ = std::fs::remove_file(f);
+            }
+        }
+        Malform::SourceIsDir { module } => {
+            if let Some(Src::Path(f)) = pos_of(module).and_then(|k| srcs.get(k)) {
+                let _ = std::fs::remove_file(f);
+                let _ = std::fs::create_dir_all(f);
+            }
+        }
+        Malform::SourceBadUtf8 { module } => {
+            if let Some(Src::Path(f)) = pos_of(module).and_then(|k| srcs.get(k)) {
+                let mut b = std::fs::read(f).unwrap_or_default();
+                let at = b.len() / 2;
+                b.insert(at, 0xff);
+                b.insert(at, 0xc3);
+                let _ = std::fs::write(f, b);
+            }
+        }
+        _ => {}
+    }
     let literal_srcs = match p.delivery {
         Delivery::OneLiteral | Delivery::OneFile => vec![Src::Literal(texts.join("\n"))],
         _ => texts.iter().map(|t| Src::Literal(t.clone())).collect(),
@@ -222,6 +252,9 @@ fn normalise(s: &str, root: &str) -> String {
 
 pub fn is_benign(f: &Fault) -> bool {
     match f.kind {
+        // a transfer of zero bytes on a write is not a short write but a device that accepts
+        // nothing: a hard fault
+        shim::F_SHORT if f.a == 0 && (f.cls == shim::C_WRITE || f.cls == shim::C_WRITE_STDOUT) => false,
         shim::F_SHORT => true,
         shim::F_ERRNO => f.a as i32 == libc::EINTR,
         shim::F_PERM => true,
@@ -271,6 +304,8 @@ fn faults_for(ev: &Event) -> Vec<Fault> {
                 v.push(short(shim::C_WRITE, 1));
                 v.push(short(shim::C_WRITE, (ev.req as u64 / 2).max(1)));
             }
+            // write() accepting nothing at all: write_all must turn it into an error (WriteZero)
+            v.push(Fault { cls: shim::C_WRITE, ord: ev.ord, kind: shim::F_SHORT, a: 0, b: 0 });
             v
         }
         "write_stdout" => {
@@ -328,18 +363,26 @@ impl Scenario for C20Lib {
         let set = gen::generate(&mut w, &cfg);
         let order = w.permutation(set.modules.len());
         let backend = BackendSel::random(&mut w);
-        let malform = match w.below(10) {
+        let malform = match w.below(12) {
             0 | 1 => Malform::Syntax { module: w.below(set.modules.len()) },
             2 if matches!(backend, BackendSel::Rasn(_)) => Malform::BadCustomImport,
+            10 => *w.pick(&[Malform::SourceMissing { module: 0 }, Malform::SourceIsDir { module: 0 }, Malform::SourceBadUtf8 { module: 0 }]),
             _ => Malform::None,
         };
-        let delivery = match w.below(6) {
+        let malform = match malform {
+            Malform::SourceMissing { .. } => Malform::SourceMissing { module: w.below(set.modules.len()) },
+            Malform::SourceIsDir { .. } => Malform::SourceIsDir { module: w.below(set.modules.len()) },
+            Malform::SourceBadUtf8 { .. } => Malform::SourceBadUtf8 { module: w.below(set.modules.len()) },
+            m => m,
+        };
+        let source_state = matches!(malform, Malform::SourceMissing { .. } | Malform::SourceIsDir { .. } | Malform::SourceBadUtf8 { .. });
+        let delivery = if source_state { Delivery::Files } else { match w.below(6) {
             0 => Delivery::Literals,
             1 => Delivery::OneLiteral,
             2 | 3 => Delivery::Files,
             4 => Delivery::OneFile,
             _ => Delivery::Mixed,
-        };
+        } };
         let out = match w.below(8) {
             0 => OutKind::Stdout,
             1 => OutKind::NoOutput,
@@ -430,7 +473,9 @@ impl Scenario for C20Lib {
         let fired: Vec<&Fault> = p.sim.faults.iter().zip(rep.fired.iter()).filter(|(_, n)| **n > 0).map(|(f, _)| f).collect();
         let io_events: Vec<&Event> = rep.events.iter().filter(|e| e.call != "note").collect();
         let mutating: Vec<&Event> = io_events.iter().copied().filter(|e| e.is_mutating()).collect();
-        let hard_src = fired.iter().any(|f| !is_benign(f) && (f.cls == shim::C_OPEN_R || f.cls == shim::C_READ));
+        // a source that is missing, a directory or not UTF-8 is a hard read fault of the real file system
+        let source_state = matches!(p.malform, Malform::SourceMissing { .. } | Malform::SourceIsDir { .. } | Malform::SourceBadUtf8 { .. });
+        let hard_src = source_state || fired.iter().any(|f| !is_benign(f) && (f.cls == shim::C_OPEN_R || f.cls == shim::C_READ));
         let hard_open_w = fired.iter().any(|f| !is_benign(f) && f.cls == shim::C_OPEN_W);
         let hard_write = fired.iter().any(|f| !is_benign(f) && (f.cls == shim::C_WRITE || f.cls == shim::C_WRITE_STDOUT));
         let close_fault = fired.iter().any(|f| f.cls == shim::C_CLOSE);
@@ -664,7 +709,8 @@ impl Scenario for C20Lib {
             push(q, &mut out);
         }
         // drop whole modules (keep the malformed one addressed correctly)
-        if p.set.modules.len() > 1 {
+        let source_state = matches!(p.malform, Malform::SourceMissing { .. } | Malform::SourceIsDir { .. } | Malform::SourceBadUtf8 { .. });
+        if p.set.modules.len() > 1 && !source_state {
             for mi in 0..p.set.modules.len() {
                 if let Malform::Syntax { module } = &p.malform {
                     if *module == mi {
@@ -705,7 +751,7 @@ impl Scenario for C20Lib {
                 push(q, &mut out);
             }
         }
-        if p.delivery != Delivery::Literals && p.sim.faults.is_empty() {
+        if p.delivery != Delivery::Literals && p.sim.faults.is_empty() && !source_state {
             let mut q = p.clone();
             q.delivery = Delivery::Literals;
             push(q, &mut out);
